@@ -1,7 +1,6 @@
 import JunoModel.C04.Model
 /-!
-C04 model, part 3: chains of blocks, sequences of reverts, the Reader queries (`answer`) and the
-small helpers the property statements use. Core Lean only.
+C04 model, part 3: chains of blocks, sequences of reverts, and the small helpers the property statements use. Core Lean only.
 -/
 namespace Juno.C04
 
@@ -30,64 +29,5 @@ def failsWith {α : Type} (r : Except Err α) (e : Err) : Bool :=
 
 def sameNode (a b : Except Err Node) : Bool :=
   match a, b with | .ok x, .ok y => x == y | _, _ => false
-
-/-- The Reader API over the model (`blockchain.Reader` and `core.StateReader`): every query is a
-lookup in one bucket family, historical state reads go through the history logs. -/
-inductive Query where
-  | height
-  | headerByNumber (n : Nat)
-  | numberByHash (h : Nat)
-  | txsByNumber (n : Nat)
-  | txByHash (h : Nat)
-  | l1HandlerTxnHash (msg : Nat)
-  | stateUpdateByNumber (n : Nat)
-  | commitmentsByNumber (n : Nat)
-  | compiledClassHash (c : Nat)
-  | persistedFilter (start : Nat)
-  | runningFilter
-  | headContract (a : Nat)
-  | headStorage (a k : Nat)
-  | classDefinition (c : Nat)
-  | classTrieLeaf (c : Nat)
-  | storageLog (a k n : Nat)
-  | nonceLog (a n : Nat)
-  | classHashLog (a n : Nat)
-  | stateRoot (ver : Nat)
-
-inductive Answer where
-  | height (h : Option Nat)
-  | header (h : Option Header)
-  | number (n : Option Nat)
-  | txs (t : Option (List Tx))
-  | loc (l : Option (Nat × Nat))
-  | su (s : Option SU)
-  | casm (m : Option CasmMeta)
-  | blooms (b : Option (Map Nat Nat))
-  | filter (f : Filter)
-  | contract (c : Option Contract)
-  | cls (c : Option ClassRec)
-  | root (r : Root)
-deriving DecidableEq
-
-def answer (nd : Node) : Query → Answer
-  | .height => .height nd.height
-  | .headerByNumber n => .header (Map.get nd.headers n)
-  | .numberByHash h => .number (Map.get nd.numByHash h)
-  | .txsByNumber n => .txs (Map.get nd.blockTxs n)
-  | .txByHash h => .loc (Map.get nd.txLoc h)
-  | .l1HandlerTxnHash m => .number (Map.get nd.l1msg m)
-  | .stateUpdateByNumber n => .su (Map.get nd.sus n)
-  | .commitmentsByNumber n => .number (Map.get nd.commitments n)
-  | .compiledClassHash c => .casm (Map.get nd.casm c)
-  | .persistedFilter s => .blooms (Map.get nd.persisted s)
-  | .runningFilter => .filter nd.running
-  | .headContract a => .contract (Map.get nd.st.contracts a)
-  | .headStorage a k => .number (Map.get nd.st.storage (a, k))
-  | .classDefinition c => .cls (Map.get nd.st.classes c)
-  | .classTrieLeaf c => .number (Map.get nd.st.classTrie c)
-  | .storageLog a k n => .number (Map.get nd.st.hStorage ((a, k), n))
-  | .nonceLog a n => .number (Map.get nd.st.hNonce (a, n))
-  | .classHashLog a n => .number (Map.get nd.st.hClass (a, n))
-  | .stateRoot ver => .root (rootOf ver nd.st)
 
 end Juno.C04
